@@ -1,2 +1,326 @@
-#include "src/common.h"
-int e2_addr_main(int argc, char **argv) { (void)argc; (void)argv; return 2; }
+/* e2_addr.c - exhaustive enumerations over the address printer / parser / mask test (C12, C13).
+ *
+ *  core_vh addr ntop              all 6^8 group-abstraction addresses + IPv4 forms: round-trip oracles
+ *  core_vh addr mask              irc_check_mask: every group x every 16-bit difference x every length
+ *  core_vh addr pton L k n        every string of length <= L over the address alphabet (part k of n)
+ *  core_vh addr ptonfile          strings on stdin -> parse results on stdout (for the Python reference)
+ */
+#include "modules/iauth.h"
+#include <arpa/inet.h>
+
+static const char *hex16(const irc_inaddr *a, char *buf)
+{
+    int k;
+    for (k = 0; k < 16; ++k) sprintf(buf + 2 * k, "%02x", a->in6_8[k]);
+    return buf;
+}
+
+struct vclass { const char *name; long count; int shown; };
+#define MAXSHOW 12
+static void report(struct vclass *c, const char *fmt, ...)
+{
+    va_list ap;
+    c->count++;
+    if (c->shown >= MAXSHOW) return;
+    c->shown++;
+    printf("{\"violation\":{\"class\":\"%s\",\"detail\":\"", c->name);
+    va_start(ap, fmt);
+    vprintf(fmt, ap);
+    va_end(ap);
+    printf("\"}}\n");
+}
+
+/* ---- C12 ------------------------------------------------------------------------------------------ */
+static struct vclass v_len = {"ntop/length", 0, 0}, v_colon = {"ntop/leading-colon", 0, 0}, v_ownrej = {"ntop/own-parser-rejects", 0, 0},
+    v_owndiff = {"ntop/own-parser-differs", 0, 0}, v_librej = {"ntop/libc-rejects", 0, 0}, v_libdiff = {"ntop/libc-differs", 0, 0},
+    v_idem = {"ntop/not-idempotent", 0, 0};
+static long n_addr, n_strings, n_idem_strings;
+
+static void canon(irc_inaddr *a)
+{
+    if (irc_inaddr_is_ipv4(*a))
+        a->in6[5] = 65535;
+}
+
+static int libc_parse(const char *t, irc_inaddr *out)
+{
+    memset(out, 0, sizeof(*out));
+    if (strchr(t, ':'))
+        return inet_pton(AF_INET6, t, out->in6_8) == 1;
+    if (inet_pton(AF_INET, t, out->in6_8 + 12) == 1) {
+        out->in6[5] = 65535;
+        return 1;
+    }
+    return 0;
+}
+
+static void idem_check(const char *s)
+{
+    irc_inaddr p, q;
+    char t1[64], t2[64];
+    unsigned int r;
+    n_idem_strings++;
+    r = irc_pton(&p, NULL, s, 0);
+    if (r == 0 || r != strlen(s))
+        return; /* not accepted as a plain address */
+    irc_ntop(t1, IRC_NTOP_MAX, &p);
+    r = irc_pton(&q, NULL, t1, 0);
+    if (r == 0 || r != strlen(t1)) {
+        report(&v_idem, "%s parses, prints as %s, which the parser then rejects", s, t1);
+        return;
+    }
+    irc_ntop(t2, IRC_NTOP_MAX, &q);
+    if (strcmp(t1, t2))
+        report(&v_idem, "%s -> %s -> %s", s, t1, t2);
+}
+
+static void check_addr(const irc_inaddr *a)
+{
+    char guard[IRC_NTOP_MAX + 16], *t = guard + 8, hb1[40], hb2[40], alt[80];
+    irc_inaddr want = *a, got, lib;
+    unsigned int n, r;
+    int k;
+
+    n_addr++;
+    memset(guard, 0x7e, sizeof(guard));
+    n = irc_ntop(t, IRC_NTOP_MAX, a);
+    n_strings++;
+    for (k = 0; k < 8; ++k)
+        if ((unsigned char)guard[k] != 0x7e || (unsigned char)guard[8 + IRC_NTOP_MAX + k] != 0x7e) {
+            report(&v_len, "%s: printer wrote outside its %d-byte buffer", hex16(a, hb1), IRC_NTOP_MAX);
+            return;
+        }
+    if (n >= IRC_NTOP_MAX || n != strlen(t)) {
+        report(&v_len, "%s: returned length %u, text length %zu, limit %d", hex16(a, hb1), n, strlen(t), IRC_NTOP_MAX - 1);
+        return;
+    }
+    if (t[0] == ':')
+        report(&v_colon, "%s prints as %s", hex16(a, hb1), t);
+    canon(&want);
+    r = irc_pton(&got, NULL, t, 0);
+    if (r == 0 || r != strlen(t))
+        report(&v_ownrej, "%s prints as %s, which irc_pton does not accept (returned %u)", hex16(a, hb1), t, r);
+    else if (memcmp(&got, &want, sizeof(got)))
+        report(&v_owndiff, "%s prints as %s, which irc_pton reads as %s", hex16(&want, hb1), t, hex16(&got, hb2));
+    if (!libc_parse(t, &lib))
+        report(&v_librej, "%s prints as %s, which inet_pton rejects", hex16(a, hb1), t);
+    else {
+        irc_inaddr l2 = lib;
+        canon(&l2);
+        if (memcmp(&l2, &want, sizeof(lib)))
+            report(&v_libdiff, "%s prints as %s, which inet_pton reads as %s", hex16(&want, hb1), t, hex16(&lib, hb2));
+    }
+    /* idempotence over alternative spellings */
+    idem_check(t);
+    if (inet_ntop(AF_INET6, a->in6_8, alt, sizeof(alt)))
+        idem_check(alt);
+    for (k = 0; t[k]; ++k) alt[k] = toupper((unsigned char)t[k]);
+    alt[k] = '\0';
+    idem_check(alt);
+    sprintf(alt, "%04x:%04x:%04x:%04x:%04x:%04x:%04x:%04x", ntohs(a->in6[0]), ntohs(a->in6[1]), ntohs(a->in6[2]), ntohs(a->in6[3]),
+            ntohs(a->in6[4]), ntohs(a->in6[5]), ntohs(a->in6[6]), ntohs(a->in6[7]));
+    idem_check(alt);
+}
+
+static int do_ntop(int thorough, int part, int nparts)
+{
+    static const unsigned vals_q[6] = { 0, 0x1, 0x10, 0x100, 0x1000, 0xffff };
+    static const unsigned vals_t[9] = { 0, 0x1, 0xf, 0x10, 0xff, 0x100, 0xfff, 0x1000, 0xffff };
+    const unsigned *vals = thorough ? vals_t : vals_q;
+    const int NV = thorough ? 9 : 6;
+    static const unsigned octs[7] = { 0, 1, 9, 10, 99, 100, 255 };
+    irc_inaddr a;
+    int g[8], k, o[4];
+    long total_abs = 0;
+
+    for (g[0] = 0; g[0] < NV; ++g[0]) for (g[1] = 0; g[1] < NV; ++g[1]) for (g[2] = 0; g[2] < NV; ++g[2]) for (g[3] = 0; g[3] < NV; ++g[3])
+    for (g[4] = 0; g[4] < NV; ++g[4]) for (g[5] = 0; g[5] < NV; ++g[5]) for (g[6] = 0; g[6] < NV; ++g[6]) for (g[7] = 0; g[7] < NV; ++g[7]) {
+        if (((g[0] * NV + g[1]) % nparts) != part) continue;
+        for (k = 0; k < 8; ++k) a.in6[k] = htons(vals[g[k]]);
+        check_addr(&a);
+        total_abs++;
+    }
+    /* IPv4-mapped and IPv4-compatible forms */
+    for (k = 0; k < 2 && part == 0; ++k)
+        for (o[0] = 0; o[0] < 7; ++o[0]) for (o[1] = 0; o[1] < 7; ++o[1]) for (o[2] = 0; o[2] < 7; ++o[2]) for (o[3] = 0; o[3] < 7; ++o[3]) {
+            memset(&a, 0, sizeof(a));
+            a.in6[5] = k ? 65535 : 0;
+            a.in6_8[12] = octs[o[0]]; a.in6_8[13] = octs[o[1]]; a.in6_8[14] = octs[o[2]]; a.in6_8[15] = octs[o[3]];
+            check_addr(&a);
+        }
+    /* boundary forms of the IPv4 predicate */
+    {
+        static const unsigned short b[][8] = {
+            {0,0,0,0,0,0xffff,0,0x102}, {0,0,0,0,0,0,0,0x102}, {0,0,0,0,0,1,0x102,0x304}, {0,0,0,0,1,0xffff,0x102,0x304},
+            {0,0,0,0,0,0xfffe,0x102,0x304}, {0,0,0,1,0,0xffff,0x102,0x304}, {0,0,0,0,0,0,0,0}, {0,0,0,0,0,0,0,1}, {0,0,0,0,0,0xffff,0,0},
+            {0xffff,0xffff,0xffff,0xffff,0xffff,0xffff,0xffff,0xffff}, {0x1000,0x1000,0x1000,0x1000,0x1000,0x1000,0x1000,0x1000} };
+        unsigned n;
+        for (n = 0; n < sizeof(b) / sizeof(b[0]) && part == 0; ++n) {
+            for (k = 0; k < 8; ++k) a.in6[k] = htons(b[n][k]);
+            check_addr(&a);
+        }
+    }
+    printf("{\"summary\":{\"addresses\":%ld,\"abstraction_points\":%ld,\"idempotence_strings\":%ld,"
+           "\"classes\":{\"%s\":%ld,\"%s\":%ld,\"%s\":%ld,\"%s\":%ld,\"%s\":%ld,\"%s\":%ld,\"%s\":%ld}}}\n",
+           n_addr, total_abs, n_idem_strings, v_len.name, v_len.count, v_colon.name, v_colon.count, v_ownrej.name, v_ownrej.count,
+           v_owndiff.name, v_owndiff.count, v_librej.name, v_librej.count, v_libdiff.name, v_libdiff.count, v_idem.name, v_idem.count);
+    return 0;
+}
+
+/* ---- C13.1 ---------------------------------------------------------------------------------------- */
+static struct vclass v_mask = {"mask/wrong-answer", 0, 0};
+
+static unsigned first_diff_bit(const irc_inaddr *a, const irc_inaddr *b)
+{
+    unsigned k;
+    for (k = 0; k < 128; ++k) {
+        unsigned byte = k / 8, bit = 7 - (k % 8);
+        if (((a->in6_8[byte] >> bit) & 1) != ((b->in6_8[byte] >> bit) & 1))
+            return k;
+    }
+    return 128;
+}
+
+static long mask_calls;
+static void mask_case(const irc_inaddr *c, const irc_inaddr *m)
+{
+    static const unsigned extra[3] = { 129, 200, 1u << 31 };
+    unsigned fd = first_diff_bit(c, m), bits, k;
+    char hb1[40], hb2[40];
+    for (bits = 0; bits <= 128; ++bits) {
+        unsigned got = irc_check_mask(c, m, bits), want = (bits <= fd);
+        mask_calls++;
+        if (!!got != want)
+            report(&v_mask, "check %s mask %s bits %u: got %u, leading bits %s", hex16(c, hb1), hex16(m, hb2), bits, got, want ? "equal" : "differ");
+    }
+    for (k = 0; k < 3; ++k) {
+        unsigned got = irc_check_mask(c, m, extra[k]), want = (fd == 128);
+        mask_calls++;
+        if (!!got != want)
+            report(&v_mask, "check %s mask %s bits %u: got %u, all 128 bits %s", hex16(c, hb1), hex16(m, hb2), extra[k], got, want ? "equal" : "differ");
+    }
+}
+
+static int do_mask(void)
+{
+    static const unsigned short bases[2][8] = { {0,0,0,0,0,0,0,0}, {0xa5a5,0x5a5a,0xffff,0x0001,0x8000,0x1234,0xfedc,0x00ff} };
+    static const unsigned dd[3] = { 1, 0x8000, 0xffff };
+    irc_inaddr c, m;
+    unsigned b, g, g2, d, k, x, y;
+    for (b = 0; b < 2; ++b) {
+        for (k = 0; k < 8; ++k) c.in6[k] = htons(bases[b][k]);
+        for (g = 0; g < 8; ++g)
+            for (d = 0; d < 65536; ++d) {
+                m = c;
+                m.in6[g] = htons(bases[b][g] ^ d);
+                mask_case(&c, &m);
+            }
+        for (g = 0; g < 8; ++g) for (g2 = g + 1; g2 < 8; ++g2) for (x = 0; x < 3; ++x) for (y = 0; y < 3; ++y) {
+            m = c;
+            m.in6[g] = htons(bases[b][g] ^ dd[x]);
+            m.in6[g2] = htons(bases[b][g2] ^ dd[y]);
+            mask_case(&c, &m);
+        }
+    }
+    printf("{\"summary\":{\"mask_calls\":%ld,\"classes\":{\"%s\":%ld}}}\n", mask_calls, v_mask.name, v_mask.count);
+    return 0;
+}
+
+/* ---- C13.2 ---------------------------------------------------------------------------------------- */
+static struct vclass v_ret = {"pton/return-exceeds-length", 0, 0}, v_agree = {"pton/disagrees-with-libc", 0, 0};
+static long n_calls, n_accept_plain, n_accept_mask, n_both, n_nontrivial;
+
+static void pton_string(const char *s, size_t len)
+{
+    /* exactly-sized heap copies: ASan catches any read past the terminator or write outside the results */
+    char *in = malloc(len + 1);
+    irc_inaddr *out = malloc(sizeof(*out));
+    unsigned int *bits = malloc(sizeof(*bits));
+    unsigned int r, mode;
+    irc_inaddr lib, plain;
+    int plain_ok = 0;
+    char hb1[40], hb2[40];
+
+    memcpy(in, s, len + 1);
+    for (mode = 0; mode < 4; ++mode) {
+        *bits = 0xdeadbeef;
+        r = irc_pton(out, (mode & 1) ? bits : NULL, in, (mode & 2) ? 1 : 0);
+        n_calls++;
+        if (r > len)
+            report(&v_ret, "'%s' (mode %u) returned %u > length %zu", s, mode, r, len);
+        if (mode == 0 && r == len && r > 0) { plain_ok = 1; plain = *out; n_accept_plain++; }
+        if (mode == 1 && r == len && r > 0) n_accept_mask++;
+    }
+    if (len > 1 && s[0] != '/' && s[0] != '*') n_nontrivial++;
+    if (plain_ok && libc_parse(s, &lib)) {
+        irc_inaddr p2 = plain, l2 = lib;
+        n_both++;
+        /* IPv4-compatible canonicalises to mapped on both sides before comparing */
+        canon(&p2); canon(&l2);
+        if (memcmp(&p2, &l2, sizeof(p2)))
+            report(&v_agree, "'%s': irc_pton reads %s, inet_pton reads %s", s, hex16(&plain, hb1), hex16(&lib, hb2));
+    }
+    free(in); free(out); free(bits);
+}
+
+static int do_pton(int maxlen, int part, int nparts)
+{
+    static const char alpha[] = "0125 9af:./*";
+    const char *A = "01259af:./*";
+    int na = (int)strlen(A), len;
+    char s[16];
+    long idx = 0;
+    (void)alpha;
+    for (len = 0; len <= maxlen; ++len) {
+        int d[16] = {0}, k;
+        for (;;) {
+            if ((idx++ % nparts) == part) {
+                for (k = 0; k < len; ++k) s[k] = A[d[k]];
+                s[len] = '\0';
+                pton_string(s, len);
+            }
+            for (k = len - 1; k >= 0; --k) {
+                if (++d[k] < na) break;
+                d[k] = 0;
+            }
+            if (k < 0) break;
+        }
+    }
+    printf("{\"summary\":{\"strings_total\":%ld,\"calls\":%ld,\"accepted_plain\":%ld,\"accepted_with_mask\":%ld,\"both_parsers_accept\":%ld,\"nontrivial\":%ld,"
+           "\"classes\":{\"%s\":%ld,\"%s\":%ld}}}\n", idx, n_calls, n_accept_plain, n_accept_mask, n_both, n_nontrivial,
+           v_ret.name, v_ret.count, v_agree.name, v_agree.count);
+    return 0;
+}
+
+static int do_ptonfile(void)
+{
+    char line[512], hb[40];
+    while (fgets(line, sizeof(line), stdin)) {
+        size_t len = strlen(line);
+        char *in;
+        irc_inaddr *out = malloc(sizeof(*out));
+        unsigned int *bits = malloc(sizeof(*bits)), r0, r1;
+        irc_inaddr plain;
+        if (len && line[len - 1] == '\n') line[--len] = '\0';
+        in = malloc(len + 1);
+        memcpy(in, line, len + 1);
+        r0 = irc_pton(out, NULL, in, 0);
+        plain = *out;
+        *bits = 0xdeadbeef;
+        r1 = irc_pton(out, bits, in, 0);
+        printf("%u %s %u %u ", r0, hex16(&plain, hb), r1, *bits);
+        printf("%s\n", hex16(out, hb));
+        free(in); free(out); free(bits);
+    }
+    return 0;
+}
+
+int e2_addr_main(int argc, char **argv)
+{
+    if (argc >= 2 && !strcmp(argv[1], "ntop")) return do_ntop(argc > 2 && argv[2][0] == 't', argc > 3 ? atoi(argv[3]) : 0, argc > 4 ? atoi(argv[4]) : 1);
+    if (argc >= 2 && !strcmp(argv[1], "mask")) return do_mask();
+    if (argc >= 5 && !strcmp(argv[1], "pton")) return do_pton(atoi(argv[2]), atoi(argv[3]), atoi(argv[4]));
+    if (argc >= 2 && !strcmp(argv[1], "ptonfile")) return do_ptonfile();
+    fprintf(stderr, "usage: core_vh addr ntop|mask|pton L k n|ptonfile\n");
+    return 2;
+}
